@@ -16,12 +16,13 @@ R == 9
 Q == 20
 Xf(to, k, base) == [i \in 1..k |-> [op |-> "xfer", to |-> to, amt |-> i, tag |-> base + i]]
 Op(o) == <<[op |-> o]>>
+Yl(tag) == <<[op |-> "yield", tag |-> tag]>>
 
 Scenario(nA, nB, nC, ck, relay, split, free) ==
-  [svcs |-> << [id |-> A, code |-> TRUE, prog |-> IF ck THEN Xf(R, 1, 100) \o Op("ckpt") \o Xf(R, nA, 110) \o Op("panic") ELSE Xf(R, nA, 100)],
+  [svcs |-> << [id |-> A, code |-> TRUE, prog |-> IF ck THEN Xf(R, 1, 100) \o Yl(5) \o Op("ckpt") \o Xf(R, nA, 110) \o Yl(6) \o Op("panic") ELSE Xf(R, nA, 100) \o Yl(3)],
                [id |-> B, code |-> TRUE, prog |-> Xf(IF relay THEN Q ELSE R, nB, 200)],
                [id |-> C, code |-> TRUE, prog |-> Xf(R, nC, 300)],
-               [id |-> R, code |-> TRUE, prog |-> Op("rec")],
+               [id |-> R, code |-> TRUE, prog |-> Op("rec") \o Yl(7)],      \* yields (item count, 7): twice per block when it runs in two rounds
                [id |-> Q, code |-> TRUE, prog |-> Op("rec") \o Xf(R, 2, 400)] >>,
    reports |-> IF split THEN << <<A>>, <<B, C>> >> ELSE << <<A, B, C>> >>,
    free |-> IF free THEN <<R>> ELSE <<>>]
